@@ -906,17 +906,17 @@ class sptensor:
 
             if self.nnz < other.nnz:
                 [subsSelf, valsSelf] = self.find()
-                valsOther = other[subsSelf]
+                valsOther = other.extract(subsSelf)
             else:
                 [subsOther, valsOther] = other.find()
-                valsSelf = self[subsOther]
+                valsSelf = self.extract(subsOther)
             return valsOther.transpose().dot(valsSelf).item()
 
         if isinstance(other, ttb.tensor):
             if self.shape != other.shape:
                 assert False, "Sptensor and tensor must be same shape for innerproduct"
             [subsSelf, valsSelf] = self.find()
-            valsOther = other[subsSelf]
+            valsOther = np.atleast_1d(other[subsSelf])
             return valsOther.transpose().dot(valsSelf).item()
 
         if isinstance(other, (ttb.ktensor, ttb.ttensor)):  # pragma: no cover
@@ -1716,7 +1716,7 @@ class sptensor:
                 assert False, "Size mismatch in scale"
             return ttb.sptensor(
                 self.subs,
-                self.vals * factor[self.subs[:, dims]][:, None],
+                self.vals * np.atleast_1d(factor[self.subs[:, dims]])[:, None],
                 self.shape,
             )
         if isinstance(factor, ttb.sptensor):
@@ -1724,7 +1724,7 @@ class sptensor:
             if not np.array_equal(factor.shape, shapeArray[dims]):
                 assert False, "Size mismatch in scale"
             return ttb.sptensor(
-                self.subs, self.vals * factor[self.subs[:, dims]], self.shape
+                self.subs, self.vals * factor.extract(self.subs[:, dims]), self.shape
             )
         if isinstance(factor, np.ndarray):
             shapeArray = np.array(self.shape)
@@ -2672,12 +2672,14 @@ class sptensor:
         if isinstance(other, ttb.tensor):
             # Find where their zeros interact
             otherzerosubs, _ = (other == 0).find()
-            zzerosubs = otherzerosubs[(self[otherzerosubs] == 0).transpose()[0], :]
+            zzerosubs = otherzerosubs[
+                (self.extract(otherzerosubs) == 0).transpose()[0], :
+            ]
 
             # Find where their nonzeros intersect
             znzsubs = np.empty(shape=(0, other.ndims), dtype=int)
             if self.nnz > 0:
-                othervals = other[self.subs]
+                othervals = np.atleast_1d(other[self.subs])
                 znzsubs = self.subs[(othervals[:, None] == self.vals).transpose()[0], :]
 
             return sptensor(
@@ -2788,7 +2790,9 @@ class sptensor:
             # find entries where x is nonzero but not equal to y
             subs2 = np.empty((0, self.ndims))
             if self.nnz > 0:
-                subs2 = self.subs[self.vals.transpose()[0] != other[self.subs], :]
+                subs2 = self.subs[
+                    self.vals.transpose()[0] != np.atleast_1d(other[self.subs]), :
+                ]
             if subs2.size == 0:
                 subs2 = np.empty((0, self.ndims))
             # put it all together
@@ -2975,7 +2979,7 @@ class sptensor:
             )
         if isinstance(other, ttb.tensor):
             csubs = self.subs
-            cvals = self.vals * other[csubs][:, None]
+            cvals = self.vals * np.atleast_1d(other[csubs])[:, None]
             return ttb.sptensor(csubs, cvals, self.shape)
         if isinstance(other, ttb.ktensor):
             csubs = self.subs
@@ -3122,7 +3126,10 @@ class sptensor:
             subs2 = np.empty(shape=(0, self.ndims), dtype=int)
             if self.nnz > 0:
                 subs2 = self.subs[
-                    operator(self.vals.transpose()[0], other[self.subs]), :
+                    operator(
+                        self.vals.transpose()[0], np.atleast_1d(other[self.subs])
+                    ),
+                    :,
                 ]
 
             # assemble
@@ -3352,7 +3359,7 @@ class sptensor:
 
         if isinstance(other, ttb.tensor):
             csubs = self.subs
-            cvals = self.vals / other[csubs][:, None]
+            cvals = self.vals / np.atleast_1d(other[csubs])[:, None]
             return ttb.sptensor(csubs, cvals, self.shape)
         if isinstance(other, ttb.ktensor):
             # TODO consider removing epsilon and generating nans consistent with above
